@@ -861,7 +861,8 @@ class PyvalColorizer:
             self._output(flags_str, self.RE_FLAGS_TAG, state)
 
     def _colorize_re_tree(self, tree: Sequence[Tuple[sre_constants._NamedIntConstant, Any]],
-                          state: _ColorizerState, noparen: bool, groups: Dict[int, str]) -> None:
+                          state: _ColorizerState, noparen: bool, groups: Dict[int, str],
+                          in_set: bool = False) -> None:
 
         if len(tree) > 1 and not noparen:
             self._output('(', self.RE_GROUP_TAG, state)
@@ -873,7 +874,8 @@ class PyvalColorizer:
             if op == sre_constants.LITERAL: #type:ignore[attr-defined]
                 c = chr(cast(int, args))
                 # Add any appropriate escaping.
-                if c in '.^$\\*+?{}[]|()\'': 
+                if c in '.^$\\*+?{}[]|()\'' or (in_set and c == '-'): 
+                    # inside [...] a literal '-' must stay escaped: '[a\\-z]' is not the range '[a-z]'
                     c = '\\' + c
                 elif c == '\t': 
                     c = r'\t'
@@ -917,7 +919,7 @@ class PyvalColorizer:
                     self._colorize_re_tree(args, state, False, groups)
                 else:
                     self._output('[', self.RE_GROUP_TAG, state)
-                    self._colorize_re_tree(args, state, True, groups)
+                    self._colorize_re_tree(args, state, True, groups, in_set=True)
                     self._output(']', self.RE_GROUP_TAG, state)
 
             elif op == sre_constants.CATEGORY: #type:ignore[attr-defined]
@@ -985,10 +987,10 @@ class PyvalColorizer:
 
             elif op == sre_constants.RANGE: #type:ignore[attr-defined]
                 self._colorize_re_tree( ((sre_constants.LITERAL, args[0]),), #type:ignore[attr-defined]
-                                        state, False, groups )
+                                        state, False, groups, in_set=True )
                 self._output('-', self.RE_OP_TAG, state)
                 self._colorize_re_tree( ((sre_constants.LITERAL, args[1]),), #type:ignore[attr-defined]
-                                        state, False, groups )
+                                        state, False, groups, in_set=True )
 
             elif op == sre_constants.NEGATE: #type:ignore[attr-defined]
                 self._output('^', self.RE_OP_TAG, state)
